@@ -192,12 +192,27 @@ class DULServiceProvider(threading.Thread):
                     evt = self.event.popleft()
                 except IndexError:
                     continue
-                self.state_machine.action(evt)
+                try:
+                    self.state_machine.action(evt)
+                except socket.error:
+                    # Transport connection was lost (e.g. reset by peer) while action was
+                    # writing to it: handle as transport connection closed indication
+                    self._connection_lost()
         except Exception:
             self.to_service_user.put(pdu.AAbortPDU(source=0, reason_diag=0))
             raise
         finally:
             self._is_killed.set()
+
+    def _connection_lost(self):
+        if self.dul_socket:
+            try:
+                self.dul_socket.close()
+            except socket.error:
+                pass
+            self.dul_socket = None
+        self.event.clear()
+        self.event.append(fsm.Events.EVT_17)
 
     def _check_network(self):
         if not self.dul_socket:
